@@ -135,7 +135,7 @@ def run_oracle(pid, mode, payload, timeout=600):
     env = dict(os.environ)
     repo = os.environ.get("VF_REPO", "/repo")
     env["VF_REPO"] = repo
-    env["PYTHONPATH"] = repo + (":" + env["PYTHONPATH"] if env.get("PYTHONPATH") else "")
+    env["PYTHONPATH"] = repo + ":" + VERIF + (":" + env["PYTHONPATH"] if env.get("PYTHONPATH") else "")
     env["PYTHONDONTWRITEBYTECODE"] = "1"
     p = subprocess.run(cmd, input=json.dumps(payload), capture_output=True, text=True, timeout=timeout, env=env, cwd=repo)
     if p.returncode != 0:
@@ -144,6 +144,23 @@ def run_oracle(pid, mode, payload, timeout=600):
         return json.loads(p.stdout.strip().splitlines()[-1])
     except Exception:
         return {"error": "unparsable oracle output: " + p.stdout[-500:]}
+
+
+def undecided_fallback(pid, tier, seed, known, log):
+    """The deductive part could not decide (source outside the verified subset).  The
+    executable postcondition is still evaluated on the real code over the bounded family: a
+    concrete failing input is a violation whatever the state of the proof; none found leaves
+    the run undecided (exit 2)."""
+    if not os.path.exists(os.path.join(VERIF, "oracles", pid + ".py")):
+        return 2
+    res = run_oracle(pid, "crosscheck", {"seed": seed, "n": 2000 if tier == "thorough" else 200, "known": [e for e in known if e.get("status", "open") == "open"]}, timeout=3000)
+    if res.get("failed"):
+        rp = os.path.join(VERIF, "replays", pid, "crosscheck.json")
+        json.dump(res, open(rp, "w"), indent=1, default=str)
+        print(f"VIOLATION property={pid} replay={rp} (proof undecided; bounded run-time check of the executable postcondition fails on the real code: {str(res.get('observed'))[:200]})", flush=True)
+        return 1
+    log(f"  bounded cross-check on the real code found no failing input: {str(res)[:200]}")
+    return 2
 
 
 def check_property(pid, tier="quick", seed=0, verbose=True):
@@ -167,11 +184,14 @@ def check_property(pid, tier="quick", seed=0, verbose=True):
     except Unsupported as e:
         log(f"UNDECIDED property={pid}: the current source is outside the verified subset: {e}")
         write_evidence(pid, tier, seed, None, [], {}, time.time() - t_start, undecided=str(e))
-        return 2
-    except Exception:
+        return undecided_fallback(pid, tier, seed, known, log)
+    except Exception as e:
+        # An internal error of the VC generator on source it was not built for is a limitation of
+        # the machinery, not a verdict: undecided.  (On the committed baseline tree this never
+        # happens; `vf setup` self-tests that.)
         traceback.print_exc()
-        log(f"CHECKER-ERROR property={pid}")
-        return 3
+        log(f"UNDECIDED property={pid}: internal error of the VC generator ({type(e).__name__}: {e})")
+        return undecided_fallback(pid, tier, seed, known, log)
 
     # ---- guards -------------------------------------------------------------------
     if not [v for v in vcs if v.required]:
@@ -249,7 +269,7 @@ def check_property(pid, tier="quick", seed=0, verbose=True):
     if missing and not os.environ.get("VF_UPDATE_BASELINE"):
         log(f"UNDECIDED property={pid}: obligations of the baseline were not generated (structure changed): {missing[:5]}")
         write_evidence(pid, tier, seed, prop, vcs, info, time.time() - t_start, undecided="missing obligations: " + ", ".join(missing[:8]), solver_time=solver_time)
-        return 2
+        return undecided_fallback(pid, tier, seed, known, log)
 
     # ---- known findings ---------------------------------------------------------------
     kf_lines = []
@@ -306,7 +326,7 @@ def check_property(pid, tier="quick", seed=0, verbose=True):
 
     # ---- thorough extras ---------------------------------------------------------------
     extra = {}
-    if exit_code == 0 and prop.oracle:
+    if exit_code in (0, 2) and prop.oracle:
         n = 2000 if tier == "thorough" else 200
         res = run_oracle(pid, "crosscheck", {"seed": seed, "n": n, "known": [e for e in known if e.get('status', 'open') == 'open']}, timeout=3000)
         extra["crosscheck"] = res
